@@ -7,7 +7,9 @@ contrast factories (labs `glm.contrast`, fmri `GeneralLinearModel.contrast`, mul
 `FMRILinearModel.contrast`), both z-score clips, `fdr`, `fdr_threshold`, `gaussian_fdr`,
 `NormalEmpiricalNull.fdrcurve` against the Lean model (exact rationals; tolerance only where the
 implementation rounds).  Oracle: the property's clauses evaluated directly on the real code.
-The case kinds `hist`, `labsfit`, `glm`, `msess`, `enull` live in `c06_ext.py`.
+The case kinds `hist`, `labsfit`, `glm`, `msess`, `enull` live in `c06_ext.py`; wave 3 (`pchk`, `gthr`, `enl`,
+`shist`, `gmm3`, `cdiv`, `conpres`, `fopt`: the rest of `empirical_pvalue.py`, `__div__`, rarely used
+`Fcontrast` arguments, other dtypes / layouts, and the translator of the source expressions) in `c06_w3.py`.
 """
 from __future__ import annotations
 
@@ -20,6 +22,7 @@ import numpy as np
 
 from harness.core import REPO, PropertyCheck, TieBroken
 from harness.props import c06_ext as X
+from harness.props import c06_w3 as W3
 from harness.util import Snapshot, errname, fr, frs, parse_rats, plist
 
 TINY = 1e-50
@@ -197,7 +200,8 @@ class _Rec:
 class C06(PropertyCheck):
     id = "C06"
     title = "Contrast statistics, p-values, z-scores and FDR are mutually consistent"
-    lean_modules = ["NipyVerif.Props.C06", "NipyVerif.Props.C06B"]
+    lean_modules = ["NipyVerif.Props.C06", "NipyVerif.Props.C06B", "NipyVerif.Props.C06C", "NipyVerif.Props.C06Source",
+                    "NipyVerif.Props.C06Tails"]
     driver = "Drivers/C06.lean"
     rule = ("cases from a seeded PRNG: fitted OLS models with t/F contrasts (incl. exact fits = zero variance; explicit "
             "dispersion, partial store, known invcov), Contrast objects (fmri and labs classes; t, F, tmin, unknown type; "
@@ -208,7 +212,16 @@ class C06(PropertyCheck):
             "contrast(c, type, tiny, dofmax), summary, save/load), fmri GeneralLinearModel.contrast (12 request shapes x "
             "types, AR(1) bins) and FMRILinearModel.contrast (1-3 sessions, null session contrasts, all output flags), "
             "p-value vectors (ties, 0, 1, boundary values, malformed), gaussian_fdr / NormalEmpiricalNull samples and tail "
-            "sweeps |stat| up to 1e300 incl. dof above dofmax; non-trivial = more than one voxel/parameter/p-value or a "
+            "sweeps |stat| up to 1e300 incl. dof above dofmax; wave 3: p-value vectors in every presentation (float32, "
+            "integer, bool, 2-d, column, scalar, 0-d, list, Fortran / strided / negative-stride / read-only; NaN, None, "
+            "out-of-range, empty; alpha <= 0 and > 1), gaussian_fdr_threshold, NormalEmpiricalNull step by step (learn with "
+            "left / right incl. negative and > 1, constant samples, hand-set parameters; threshold with none / some / all "
+            "samples below alpha; fdr(theta) at and between samples), smoothed_histogram_from_samples (automatic and given "
+            "bins, normalized), three_classes_GMM_fit / gamma_gaussian_fit around stand-in estimators (bias, theta, test "
+            "arrays, return_estimator), __div__ with every scalar type incl. 0, contrasts whose effect / variance arrays "
+            "are integer / float32 / Fortran / strided / negative-stride / read-only, Fcontrast with a supplied invcov "
+            "(true, scaled, wrong size) and dispersion as float / numpy scalar / 0-d / int / per-response array, "
+            "t(column=list), vcov in its four call forms; non-trivial = more than one voxel/parameter/p-value or a "
             "multi-row contrast or a call sequence; distinct by full JSON")
     assumptions = [
         "np.sqrt is a parameter: in the legacy lines the model receives the value s and the driver refuses it unless "
@@ -227,21 +240,39 @@ class C06(PropertyCheck):
         "numpy argsort / sort tie order is immaterial: fdr_is_BH is proved for the model's stable merge sort through the "
         "sort permutation and characterises the result without reference to positions, so any other sort gives the same "
         "values (fdr_perm_equivariant)",
-        "NormalEmpiricalNull.learn (histogram fit: p0, mu, sigma), norm.sf values, the VB-GMM / gamma-Gaussian "
-        "mixtures and the Kalman fits of labs glm are inputs: the exact part after them (fdrcurve running maximum, "
-        "contrast algebra) is modelled; fits handing over a non-positive-definite covariance are skipped",
+        "inside NormalEmpiricalNull.learn the float products n*left, n*right, np.std, np.exp, np.log, the edges "
+        "np.histogram chose, pinv (the three fitted coefficients) and exp(lp0) are inputs; the model carries the slice, "
+        "the number of bins, the counts for those edges, the masking step as written, the floor / mean / clamp after "
+        "the fit, and everything in fdrcurve / threshold / fdr(theta); norm.sf / norm.isf values, the VB-GMM / "
+        "gamma-Gaussian estimators (replaced by recording stand-ins for the bookkeeping cases, run for real in the "
+        "others), scipy's Gaussian filter and the Kalman fits of labs glm are inputs; fits handing over a "
+        "non-positive-definite covariance are skipped",
+        "exact tails (Props/C06Tails, over the reals): for every probability law the survival function 1 - cdf is "
+        "antitone into [0,1] and its upper quantile function is antitone and finite on (0,1), hence z is monotone in "
+        "the statistic through the clip for the exact Student / Fisher / normal tails; that SciPy's binary64 t.sf, f.sf, "
+        "norm.isf round these monotonically, and that the Student tail is antitone in the degrees of freedom, stay "
+        "numeric (oracle sweeps)",
+        "float32 presentations make nipy compute in single precision: compared with 1e-6 relative tolerance and not "
+        "sent to the exact model where an intermediate is rounded to float32; unsigned effect arrays with integer "
+        "baselines and int8 sums that overflow are NumPy wrap-around, not generated",
         "floating-point rounding of dot products: the model is exact, comparisons use |c||theta|-scaled tolerances; "
         "along a history the rounding-error bounds of effect and variance are propagated (zero while the arithmetic is "
         "exact, which the generator arranges)",
     ]
     level_note = ("'p equals the Student/Fisher tail' is definitional in the model (which tail, which df = min(dof, dofmax)) "
-                  "and numeric on SciPy; sqrt and inverse enter theorems as exact-value hypotheses; the numerical "
-                  "constants (DEF_TINY, DEF_DOFMAX, clip bounds) are regenerated from the source text and proved equal "
-                  "to the model's")
+                  "and numeric on SciPy; sqrt and inverse enter theorems as exact-value hypotheses; monotonicity of z in "
+                  "the statistic is proved for the exact tails of any probability law over the reals (C06Tails) and "
+                  "numeric for SciPy's binary64 functions; the numerical constants (DEF_TINY, DEF_DOFMAX, clip bounds, "
+                  "1e-6 variance floor, 1.2 widening, default alpha / left / right) and 27 assignment expressions (BH "
+                  "q-value and critical test, fdrcurve, learn, smoothed histogram, prior weights, + / * / __div__ / "
+                  "one-dimensional stat of both contrast classes) are regenerated from the source text and proved equal "
+                  "to the model's for all arguments (C06Source); empirical_pvalue.py is modelled in full except the "
+                  "least-squares fit inside learn, the mixture estimators and the Gaussian filter (inputs); "
+                  "enThreshold_extremes records that threshold() returns the mid-range when every sample is below alpha")
 
     # ------------------------------------------------------------------
     def translators(self):
-        return X.translate_consts(REPO, TieBroken)
+        return X.translate_consts(REPO, TieBroken) + W3.translate_formulas(REPO, TieBroken)
 
     def generate(self, rng, tier):
         nm, nc, nl, nf, ng, nh, ns, ne = (60, 200, 60, 200, 40, 260, 30, 40) if tier == "quick" else \
@@ -267,6 +298,7 @@ class C06(PropertyCheck):
                 for ty, q in (("t", 1), ("F", 2)):
                     cases.append({"kind": "tail", "cls": cls, "ty": ty, "q": q, "dof": d, "zero_var": False, "dofmax": dm})
         cases.append({"kind": "zs"})
+        cases += W3.generate(rng, tier, _design, _imat, _fullrank)
         return cases + models
 
     # ------------------------------------------------------------------
@@ -276,6 +308,8 @@ class C06(PropertyCheck):
         k = case["kind"]
         if k in ("hist", "labsfit", "glm", "msess", "enull", "ctor"):
             return getattr(X, "run_" + k)(case)
+        if k in W3.KINDS:
+            return getattr(W3, "run_" + k)(case)
         return getattr(self, "_" + k)(case)
 
     # ---- LikelihoodModelResults ---------------------------------------
@@ -889,6 +923,8 @@ class C06(PropertyCheck):
     # ------------------------------------------------------------------
     def compare(self, case, impl_obs, model_out):
         kind = impl_obs[0]
+        if kind == "w3":
+            return W3.compare_w3(impl_obs, model_out)
         if kind in ("hist", "objx", "msess"):
             return X.compare_ext(impl_obs, model_out)
         if kind == "text":
